@@ -75,6 +75,12 @@ func genCase(t *rapid.T) Case {
 	batches := rapid.IntRange(1, 4).Draw(t, "batches")
 	total := c.N*batches + rapid.IntRange(0, c.N-1+0).Draw(t, "extra")
 	total *= 1
+	// offset mode: all values sit close together far from zero (large mean, small spread), the regime where a
+	// one-pass variance formula loses its digits
+	offset := 0.0
+	if rapid.IntRange(0, 4).Draw(t, "offsetmode") == 0 {
+		offset = rapid.SampledFrom([]float64{1e6, 1e8, 1e9, -5e7, 123456789}).Draw(t, "offset")
+	}
 	val := func(label string) gen.Val {
 		switch rapid.IntRange(0, 9).Draw(t, label+"k") {
 		case 0:
@@ -82,6 +88,12 @@ func genCase(t *rapid.T) Case {
 		case 1:
 			return gen.Missing()
 		default:
+			if offset != 0 {
+				if rapid.Bool().Draw(t, label+"oi") {
+					return gen.Int(int64(offset) + int64(rapid.IntRange(0, 9).Draw(t, label+"od")))
+				}
+				return gen.Float(offset + float64(rapid.IntRange(0, 36).Draw(t, label+"of"))/4)
+			}
 			return gen.SmallNum().Draw(t, label)
 		}
 	}
@@ -610,6 +622,12 @@ func runCase(c Case) (res pbt.Result) {
 	}
 	if len(want) >= 2 {
 		res.Class("multi-batch")
+	}
+	for _, r := range c.Rows {
+		if f, ok := r["v"].Num(); ok && (f > 5e5 || f < -5e5) {
+			res.Class("large-offset-values")
+			break
+		}
 	}
 	for _, a := range c.Aggs {
 		res.Class("fn:" + a.Fn)
